@@ -89,7 +89,7 @@ def gen(rng, nmax):
         setting = {"n_iso_graphs": int(min(math.factorial(n), rng.integers(1, 5))), "n_lc_graphs": int(rng.integers(1, 5)), "lc_method": method,
                    "lc_orbit_depth": [None, 1, 2][int(rng.integers(3))], "sort_emit": bool(rng.integers(2)), "allow_exhaustive": bool(rng.integers(2)),
                    "rel_inc_thresh": [0.1, 0.3][int(rng.integers(2))]}
-    return A, rep, setting, int(rng.integers(1000)), default
+    return A, rep, setting, [None, 0, 1, int(rng.integers(1000))][int(rng.integers(4))], default
 
 
 def check_case(cseed, nmax, ctx, m, mon, state):
